@@ -376,7 +376,7 @@ static void exec(const std::string &line, const std::vector<const char *> *class
   const lg::Pair *p = w.size() >= 2 ? pairOf(w[1]) : nullptr;
   if (!p) { C.out("unknown-pair"); return; }
   if (w[0] == "set") { C.cases++; execSet(*p, w, classes); }
-  else if (w[0] == "parse" && w.size() >= 3) execParse(*p, w, line);
+  else if (w[0] == "parse" && w.size() >= 3 && p->parse) execParse(*p, w, line);
   else C.out("bad-op");
 }
 
@@ -397,6 +397,7 @@ static void runCase(const lg::Pair &p, const std::vector<Cell> &cells, Rng &r, b
   }
 }
 
+#ifndef LAYOUT_NO_MAIN
 int main(int argc, char **argv) {
   // UBSAN_OPTIONS of the caller asks for halt_on_error; this harness wants the recoverable float-cast report to be
   // counted per input (see __ubsan_on_report above). Runtime options are read at start-up, hence the re-exec.
@@ -418,6 +419,7 @@ int main(int argc, char **argv) {
   int nRandom = C.thorough ? 400 : 40;
   for (int pi = 0; pi < lg::nPairs; pi++) {
     const lg::Pair &p = lg::pairs[pi];
+    if (!p.parse) continue;            // setter without a parser: nothing to round-trip (C15 uses these entries)
     std::vector<Cell> base(p.nf);
     for (int i = 0; i < p.nf; i++) base[i] = randomCell(p, p.f[i], r, false);
     long n = 0;
@@ -449,3 +451,4 @@ int main(int argc, char **argv) {
   C.finish();
   return 0;
 }
+#endif
